@@ -204,6 +204,40 @@ def judge_mag(t, mag):
     return out
 
 
+def is_lammps_normalised(vects, tol=1e-12):
+    """Lower-triangular cell with positive diagonal and tilt factors within the LAMMPS limits
+    (|xy| <= lx/2, |xz| <= lx/2, |yz| <= ly/2; LAMMPS manual, triclinic boxes)."""
+    v = np.asarray(vects, float)
+    if not G.is_lammps_form(v):
+        return False
+    return bool(abs(v[1, 0]) <= 0.5 * v[0, 0] * (1 + tol) and abs(v[2, 0]) <= 0.5 * v[0, 0] * (1 + tol)
+                and abs(v[2, 1]) <= 0.5 * v[1, 1] * (1 + tol))
+
+
+def hostility(t):
+    """Row masks of input classes that defeat plausible shortcuts of the image search (coverage information for
+    floors, no verdicts).  All are statements about the INPUT (direct separation, cell, periodicity):
+
+    beaten                some candidate image is shorter than the direct separation by more than 8 bounds
+    short_direct_beaten   ... although the direct separation is shorter than half the shortest cell vector (only
+                          possible where a +-1 combination of periodic cell vectors is shorter than every cell vector)
+    relhalf_beaten        ... although every box-relative component of the direct separation is within +-1/2
+    combo_image           the unique best candidate shifts along two or three cell vectors at once"""
+    if t.n == 0:
+        z = np.zeros(0, bool)
+        return dict(beaten=z, short_direct_beaten=z, relhalf_beaten=z, combo_image=z)
+    ld = np.linalg.norm(t.d, axis=1)
+    vmin = np.linalg.norm(t.vects, axis=1).min()
+    beaten = t.l27 < ld - 8 * t.bnd
+    with np.errstate(all='ignore'):
+        dr = np.linalg.solve(t.vects.T, t.d.T).T
+        nwin = np.rint(np.linalg.solve(t.vects.T, (t.v27 - t.d).T).T)
+    return dict(beaten=beaten,
+                short_direct_beaten=beaten & (ld < 0.5 * vmin),
+                relhalf_beaten=beaten & np.all(np.abs(dr) <= 0.5, axis=1),
+                combo_image=(t.ntie27 == 1) & ((nwin != 0).sum(axis=1) >= 2))
+
+
 def self_check(t):
     """Internal consistency of the oracle itself: the exhaustive minimum can never exceed the 27-candidate one."""
     done = t.ni_done
